@@ -357,6 +357,20 @@ def boundary_and_sampling(res, rng):
                  {'sample': smp.tolist(), 'getX(u)': want.tolist()})
 
 
+def high_correlation(res):
+    """|rho| >= 0.98: the fixed 99-point Gauss-Legendre rule on [-8, 8]^2 no longer resolves the ridge of the density (recorded limitation)"""
+    core.import_impl()
+    from scipy import stats
+    from ffpack import rpm
+    for rho in (0.99, -0.99, 0.999):
+        res.evaluations += 1
+        res.stat('correlation_above_0.98')
+        nat = rpm.NatafTransformation([stats.norm(), stats.norm(2, 3)], [[1.0, rho], [rho, 1.0]])
+        if abs(float(nat.rhoZ[0, 1]) - rho) > 1e-6:
+            fail(res, 'latent correlation differs from the prescribed one for normal marginals', {'marginals': 'norm(), norm(2,3)', 'corr': rho},
+                 float(nat.rhoZ[0, 1]), sig='C11:latent-correlation-quadrature:abs-rho-above-0.98')
+
+
 def fallback_search(res):
     """the last-resort root search: make the first two fsolve calls report failure (fault injected from outside)"""
     core.import_impl()
@@ -394,6 +408,7 @@ def run(tier, seed):
     explore(res, random.Random(seed), n)
     same_family(res, random.Random(seed + 1))
     sparse_corr(res)
+    high_correlation(res)
     pdf_tails(res)
     shifted_lognormal(res)
     boundary_and_sampling(res, random.Random(seed + 2))
